@@ -884,7 +884,7 @@ func filterList(ad AllowDeny, in []string) ([]string, error) {
 	if len(ad.Allow) > 0 {
 		result = make([]string, len(in))
 		for _, filter := range ad.Allow {
-			exp, err := regexp.Compile("^" + filter + "$")
+			exp, err := regexp.Compile("^(?:" + filter + ")$")
 			if err != nil {
 				return result, err
 			}
@@ -902,7 +902,7 @@ func filterList(ad AllowDeny, in []string) ([]string, error) {
 	// apply deny list
 	if len(ad.Deny) > 0 {
 		for _, filter := range ad.Deny {
-			exp, err := regexp.Compile("^" + filter + "$")
+			exp, err := regexp.Compile("^(?:" + filter + ")$")
 			if err != nil {
 				return result, err
 			}
